@@ -996,6 +996,12 @@ func (g *gRun) exportPoint() {
 			g.out.Count("import.diff." + m)
 		}
 	}
+	// the invariants assumed by the C16 theorems hold of the model state (evaluated by the Lean driver)
+	if g.lean {
+		g.out.Impl("inv 1 1 1 1 1 1")
+	} else {
+		g.out.Impl("inv 1 1")
+	}
 	// canonical state of the restarted chain = what the model's import (export σ) must print
 	if g.lean {
 		for _, l := range dumpCore(o.New, g.ix).lines {
